@@ -8,6 +8,35 @@ VERIF = os.path.dirname(os.path.dirname(os.path.abspath(__file__)))
 
 # property -> (category, technique, text, note, design_ref)
 CHECKS = {
+    'C01': ('exploration', 'dense numpy shadow model stepped in lock-step with random programs of public np_conserved operations '
+            '(reference-model monitor after every step)',
+            'Random programs (1-8 quick / 1-20 thorough public operations) run on the real Arrays in the compiled and the '
+            'pure-Python configuration; a harness-owned numpy shadow predicts values, labels, leg charges/directions and total '
+            'charge of every result and of every tensor modified in place, and exceptions on legal calls are violations. '
+            'Held means: no disagreement on the executions listed in the evidence.',
+            'numpy as ground truth; LegPipe index order is observed through map_incoming_flat (its correctness is C06); '
+            'dtype widening is not judged', 'DESIGN.md §C01'),
+    'C02': ('exploration', 'strict storage-invariant monitor (own test_sanity at level 0 + harness recomputation of every cached '
+            'claim) evaluated on every touched tensor after every step of the random programs, at TENPY_OPTIMIZE 0/1/3',
+            'After each step the monitor recomputes: unique block rows, charge rule per stored block, block shapes/dtypes, '
+            'C-contiguous intp _qdata, truth of _qdata_sorted / sorted / bunched / blocked claims, LegPipe q_map structure and '
+            'fusion rule, and the qtotal arithmetic through the shadow. Latent false claims are made to matter by later '
+            'trusting operations in the same program.',
+            'invariants are those documented in doc/intro/npc.rst and checked by test_sanity', 'DESIGN.md §C02'),
+    'C03': ('exploration', 'identity-keyed fingerprints of every live Array/LegCharge/LegPipe/ChargeInfo before and after each '
+            'step; alias monitor (shared block memory / label list / leg list) and mutate-result-recheck-operand for deep results',
+            'Every live object is fingerprinted (dense bytes, labels, qtotal, dtype, slices, charges, flags, q_map) before a '
+            'step and compared afterwards; only the receiver of an in-place method and arrays documented to share its data '
+            'may change, legs never. Results documented as deep copies are then mutated with every public in-place method and '
+            'the operands are re-checked.',
+            'return-kind table (deep/shallow/in-place) taken from the docstrings', 'DESIGN.md §C03'),
+    'C04': ('exploration', 'offline differential checker over per-step observation traces recorded from two interpreter processes '
+            '(compiled extension rebuilt from the current .pyx vs TENPY_NO_CYTHON)',
+            'The same seeded programs run in both configurations at optimisation levels 1 and 3; shapes, labels, qtotal, '
+            'leg structure, the set of stored blocks, block values (to tolerance), scalar results and error classes are compared '
+            'step by step; the sixteen paired functions are also called directly and small DMRG/TEBD/TDVP runs are compared. '
+            'Each worker asserts which implementation (Cython or Python twin) is actually bound.',
+            'the extension is always rebuilt from the working tree (content-hash cache); dtype is not compared', 'DESIGN.md §C04'),
     'C15': ('exploration', 'brute-force-over-all-cuts reference monitor on truncate(); reconstruction-residual monitors on '
             'svd_theta/eigh_rho/decompose_theta_qr_based',
             'Every generated spectrum/option set is executed on the real truncate() and compared with a harness oracle that '
